@@ -241,12 +241,6 @@ Theorem tokens_alternate : forall a b i x y, nth_error (tokens a) i = Some x -> 
 Proof. intros a b i x y Hx Hy. unfold tokens in *. rewrite (tokens_go_kind _ _ _ _ _ Hx), (tokens_go_kind _ _ _ _ _ Hy). reflexivity. Qed.
 
 (* ================================================================ merge_files *)
-Lemma merge_go_present : forall parts i, (0 < i)%nat \/ True -> forall copy,
-  merge_go copy (Datatypes.S i) (map Some parts) = flat_map drop_header parts.
-Proof.
-  induction parts as [|p t IH]; intros i _ copy; [reflexivity|].
-  cbn [map merge_go flat_map]. rewrite andb_false_r. f_equal. apply (IH (Datatypes.S i)). right. exact Logic.I.
-Qed.
 (* all parts present, no header copied (every call in dataset_processor.py): the merged text is the concatenation, in natural order of
    the part names, of the parts without their leading '#' lines; nothing raises *)
 Theorem merge_files_all_present : forall (parts : list (str * list str)),
